@@ -71,6 +71,10 @@ type c04Gen struct {
 	dynamic  bool
 	symlinks bool
 	forceOut string // type of the next new stage's first output
+	// heavyDisable: every second consumer call of the top pipeline is disabled
+	// by the pipeline's flag, which is then true (a producer whose only
+	// consumer never runs)
+	heavyDisable bool
 }
 
 var c04OutTypes = []string{"txt", "txt", "txt[]", "FS", "FS[]", "map<txt>", "map<FS>", "string", "map", "int", "int[]"}
@@ -479,7 +483,7 @@ func (g *c04Gen) genPipe(name string, depth int, ins []c04Param) *c04PipeDef {
 				g.feat("call_volatile")
 			}
 		}
-		if c > 0 && g.r.Intn(10) == 0 {
+		if c > 0 && (g.r.Intn(10) == 0 || g.heavyDisable && g.r.Intn(2) == 0) {
 			for _, in := range ins {
 				if in.Ty == "bool" {
 					call.Disabled = "self." + in.Name
@@ -640,12 +644,16 @@ func (g *c04Gen) retainedDynamicMap(pl *c04PipeDef, avail []c04Src) []c04Src {
 }
 
 func c04Generate(r *hx.Rng, stagecmd string, dynamic, symlinks bool) *c04Prog {
-	g := &c04Gen{r: r, stagecmd: stagecmd, dynamic: dynamic, symlinks: symlinks,
+	return c04GenerateOpt(r, stagecmd, dynamic, symlinks, false)
+}
+
+func c04GenerateOpt(r *hx.Rng, stagecmd string, dynamic, symlinks, heavyDisable bool) *c04Prog {
+	g := &c04Gen{r: r, stagecmd: stagecmd, dynamic: dynamic, symlinks: symlinks, heavyDisable: heavyDisable,
 		p: &c04Prog{Stats: map[string]int{}, Feat: map[string]bool{}}}
 	top := g.genPipe("TOP", 0, []c04Param{{"off", "bool"}, {"seed", "int"}})
 	g.p.Pipes = append(g.p.Pipes, top)
 	off := "false"
-	if r.Intn(2) == 0 {
+	if r.Intn(2) == 0 || heavyDisable {
 		off = "true"
 	}
 	for _, in := range top.Ins {
